@@ -285,6 +285,197 @@ def rule_indentwidth(ctx, res):
     res.check(ok, 'R-C10-indentwidth', c.qual,
               'width taken from the writer argument', '',
               'indentwidth argument is not read', c.module.loc(c.node))
+    # every integer width -- 0 included -- reaches the multiplication as given
+    stores = []
+    for m in c.methods.values():
+        for n in walk_own(m.node):
+            if isinstance(n, (ast.Assign, ast.AugAssign, ast.AnnAssign)):
+                tg = n.targets if isinstance(n, ast.Assign) else [n.target]
+                if any(isinstance(t, ast.Attribute) and
+                       t.attr == '_indent_mult' for t in tg):
+                    stores.append((m, n))
+    if not stores:
+        res.vanished('R-C10-indentwidth', c.qual, 'width store',
+                     'no assignment to _indent_mult')
+        return
+    for (m, n) in stores:
+        loc = c.module.loc(n)
+        if not isinstance(n, ast.Assign) or m.name != '__init__':
+            res.violation('R-C10-indentwidth', m.qual, 'width store',
+                          'the width is modified after construction: ' +
+                          unparse(n, 60), loc)
+            continue
+        verdict, why = _width_flow(m.node, n.value, n, 0)
+        if verdict == 'ok':
+            res.holds('R-C10-indentwidth', m.qual,
+                      'given width used unchanged',
+                      'width := ' + unparse(n.value, 70), loc)
+        elif verdict == 'bad':
+            res.violation('R-C10-indentwidth', m.qual,
+                          'given width used unchanged', why, loc)
+        else:
+            res.undecided('R-C10-indentwidth', m.qual,
+                          'given width used unchanged', why, loc)
+
+
+def _is_arg_get(e):
+    """<x>.get('indentwidth'[, default]) -> (True, default-node-or-None)"""
+    if isinstance(e, ast.Call) and isinstance(e.func, ast.Attribute) and \
+            e.func.attr == 'get' and e.args and \
+            const_str(e.args[0]) == 'indentwidth':
+        return True, (e.args[1] if len(e.args) > 1 else None)
+    return False, None
+
+
+def _is_arg_sub(e):
+    return isinstance(e, ast.Subscript) and \
+        const_str(e.slice) == 'indentwidth'
+
+
+def _mentions_arg(e):
+    return any(_is_arg_get(x)[0] or _is_arg_sub(x) for x in ast.walk(e))
+
+
+def _width_flow(fnode, e, at, depth):
+    """Classify the expression stored as the width: 'ok' when a given integer
+    width (0 included) is stored unchanged and only an absent / None width is
+    replaced; 'bad' with the reason otherwise; 'unknown' when the shape is
+    outside the recognised idioms."""
+    if depth > 4:
+        return 'unknown', 'alias chain too deep'
+    g, _d = _is_arg_get(e)
+    if g or _is_arg_sub(e):
+        return 'ok', ''
+    if isinstance(e, ast.BoolOp):
+        if any(_mentions_arg(v) for v in e.values[:-1]) or \
+                any(_local_from_arg(fnode, v) for v in e.values[:-1]):
+            return 'bad', (
+                'the given width passes through a truth test ({}): width 0 is '
+                'falsy and is replaced, so --indentwidth=0 does not produce '
+                'width-0 indentation'.format(unparse(e, 70)))
+        return 'unknown', 'boolean expression ' + unparse(e, 50)
+    if isinstance(e, ast.IfExp):
+        t = e.test
+        if _truthiness_on_arg(fnode, t):
+            return 'bad', (
+                'the given width is selected by a truth test ({}): width 0 is '
+                'falsy and is replaced'.format(unparse(t, 60)))
+        if _none_or_presence_test(fnode, t):
+            a = _width_flow(fnode, e.body, at, depth + 1)
+            b = _width_flow(fnode, e.orelse, at, depth + 1)
+            for v in (a, b):
+                if v[0] == 'bad':
+                    return v
+            if a[0] == 'ok' or b[0] == 'ok':
+                return 'ok', ''
+        return 'unknown', 'conditional ' + unparse(e, 60)
+    if isinstance(e, ast.Call) and isinstance(e.func, ast.Name) and \
+            e.func.id == 'int' and len(e.args) == 1:
+        return _width_flow(fnode, e.args[0], at, depth + 1)
+    if isinstance(e, ast.Name):
+        binds = [(s, v) for (s, v) in _assignments(fnode, e.id)]
+        if not binds:
+            return 'unknown', 'unbound ' + e.id
+        got_ok = False
+        for (s, v) in binds:
+            if v is None:
+                return 'unknown', 'opaque binding of ' + e.id
+            guard = _enclosing_if(s, fnode)
+            if guard is not None:
+                if _truthiness_on_arg(fnode, guard.test) or (
+                        isinstance(_strip_not(guard.test), ast.Name) and
+                        _strip_not(guard.test).id == e.id):
+                    return 'bad', (
+                        'the width is replaced under a truth test ({}): width '
+                        '0 is falsy and is replaced'.format(
+                            unparse(guard.test, 50)))
+                if not _none_or_presence_test(fnode, guard.test, e.id):
+                    return 'unknown', 'guarded rebinding of ' + e.id
+                if _mentions_arg(v):
+                    r = _width_flow(fnode, v, at, depth + 1)
+                    if r[0] != 'ok':
+                        return r
+                    got_ok = True
+                continue
+            r = _width_flow(fnode, v, at, depth + 1)
+            if r[0] == 'bad':
+                return r
+            if r[0] == 'ok':
+                got_ok = True
+            elif _mentions_arg(v):
+                return r
+        return ('ok', '') if got_ok else ('unknown',
+                                          e.id + ' never holds the argument')
+    if _mentions_arg(e):
+        return 'bad', (
+            'the given width is transformed before use ({}): the indentation '
+            'is no longer <given width> * <depth>'.format(unparse(e, 70)))
+    return 'unknown', 'width := ' + unparse(e, 60)
+
+
+def _strip_not(t):
+    while isinstance(t, ast.UnaryOp) and isinstance(t.op, ast.Not):
+        t = t.operand
+    return t
+
+
+def _assignments(fnode, name):
+    out = []
+    for n in walk_own(fnode):
+        if isinstance(n, ast.Assign):
+            for t in n.targets:
+                if isinstance(t, ast.Name) and t.id == name:
+                    out.append((n, n.value))
+                elif any(isinstance(x, ast.Name) and x.id == name
+                         for x in ast.walk(t)):
+                    out.append((n, None))
+        elif isinstance(n, (ast.AugAssign, ast.For)) and any(
+                isinstance(x, ast.Name) and x.id == name
+                for x in ast.walk(n.target)):
+            out.append((n, None))
+    return out
+
+
+def _local_from_arg(fnode, e):
+    if isinstance(e, ast.Name):
+        return any(v is not None and _mentions_arg(v)
+                   for (_s, v) in _assignments(fnode, e.id))
+    return False
+
+
+def _truthiness_on_arg(fnode, t):
+    t = _strip_not(t)
+    if _is_arg_get(t)[0] or _is_arg_sub(t) or _local_from_arg(fnode, t):
+        return True
+    if isinstance(t, ast.BoolOp):
+        return any(_truthiness_on_arg(fnode, v) for v in t.values)
+    return False
+
+
+def _none_or_presence_test(fnode, t, name=None):
+    t = _strip_not(t)
+    if isinstance(t, ast.Compare) and len(t.ops) == 1:
+        op, l, r = t.ops[0], t.left, t.comparators[0]
+        if isinstance(op, (ast.Is, ast.IsNot)) and \
+                isinstance(r, ast.Constant) and r.value is None:
+            return (_is_arg_get(l)[0] or _is_arg_sub(l) or
+                    (isinstance(l, ast.Name) and
+                     (l.id == name or _local_from_arg(fnode, l))))
+        if isinstance(op, (ast.In, ast.NotIn)) and \
+                const_str(l) == 'indentwidth':
+            return True
+    return False
+
+
+def _enclosing_if(stmt, fnode):
+    p = getattr(stmt, '_parent', None)
+    while p is not None and p is not fnode:
+        if isinstance(p, ast.If):
+            return p
+        if isinstance(p, (ast.FunctionDef, ast.ClassDef)):
+            return None
+        p = getattr(p, '_parent', None)
+    return None
 
 
 def run(ctx, res):
